@@ -45,6 +45,16 @@ Section G.
     forall st ins, ctrace rule rt input decision cstep c st ins = ctrace rule rt input decision cstep old st ins.
   Proof. exact (behaviour_invisible rule). Qed.
 
+  (* the two together for the common case - the unchanged rule occurs once in the old and once in
+     the new list: exactly one controller serves it after the load, the old object, and its trace of
+     decisions from any runtime state on any inputs is the trace the old object produces *)
+  Theorem C14_unchanged_rule_same_decisions : forall cls res n rules olds c0,
+    (forall x, In x rules -> cls x = true -> mismatch res x = false /\ supported x = true) ->
+    cls_compat rule equal cls olds rules ->
+    filter (fun c => cls (c_rule c)) olds = [c0] -> length (filter cls rules) = 1%nat ->
+    filter (fun c => cls (c_rule c)) (build n res rules olds) = [c0].
+  Proof. exact (unchanged_single rule valid resource equal stat_reusable supported deep_eq q). Qed.
+
   (* statistics reuse: a rule that matched no old controller is generated over the statistics object
      of the first controller left over by the equal-matching pass that is statistic-reusable with it
      (and that controller is then no longer a candidate); without such a controller it gets
@@ -104,6 +114,21 @@ Proof.
   - intros x [<-|[<-|[<-|[]]]]; vm_compute; auto.
 Qed.
 
+(* the hypotheses of C14_stat_reuse / C14_stat_fresh / C14_unchanged_rule_same_decisions / C14_behaviour_invisible
+   are met by the same witness: A' finds A's controller as its statistic-reusable candidate when A is
+   gone from the list, none when the candidate list is empty; [A'; A] has one rule of A's class and
+   [cA] one controller of it; and cA serves A after the load *)
+Example C14_stat_nonvacuous :
+  mismatch brule b_res brk_quirks 5 A' = false /\ brk_supported A' = true
+  /\ Forall (fun c => brk_equal (c_rule c) A' = false) [cA]
+  /\ find_reuse brule brk_stat_reusable A' [cA] = Some 0%nat /\ nth_error [cA] 0 = Some cA
+  /\ find_reuse brule brk_stat_reusable A' [] = None
+  /\ filter (fun c => brk_equal A (c_rule c)) [cA] = [cA] /\ length (filter (brk_equal A) [A'; A]) = 1%nat
+  /\ filter (fun c => brk_equal A (c_rule c)) (bbuild 7 5 [A'; A] [cA]) = [cA]
+  /\ served brule 7 (Some cA) cA.
+Proof. vm_compute. repeat split; repeat constructor. Qed.
+
+Print Assumptions C14_unchanged_rule_same_decisions.
 Print Assumptions C14_unchanged_keeps_controller.
 Print Assumptions C14_behaviour_invisible.
 Print Assumptions C14_stat_reuse.
